@@ -236,4 +236,314 @@ Section Extract.
       + discriminate.
       + apply ret_ok in H as (-> & -> & _). split; [apply only_store_refl|]. split; [apply stle_refl|]. unfold fvs. rewrite Eth, Est. reflexivity.
   Qed.
+
+  (* ================= deferred statements ================= *)
+  Definition pden_edge (pv : nat -> option value) (st : lstmt) (e : N * N) : Prop :=
+    exists a b dbg, st = LSEdge a b [] dbg /\ pden pv a (VGraph (fst e)) /\ pden pv b (VGraph (snd e)).
+  Definition pden_attrs (pv : nat -> option value) (out : list (ident * lvalue)) (kvs : list (ident * value)) : Prop :=
+    Forall2 (fun x y => fst x = fst y /\ pden pv (snd x) (snd y)) out kvs.
+  Definition pden_astmt (pv : nat -> option value) (st : lstmt) (ops : list aop) : Prop :=
+    match st with
+    | LSAttrNode n attrs _ => exists x kvs, pden pv n (VGraph x) /\ pden_attrs pv attrs kvs /\ ops = map (mk (TNode x)) kvs
+    | LSAttrEdge a b attrs _ => exists x y kvs, pden pv a (VGraph x) /\ pden pv b (VGraph y) /\ pden_attrs pv attrs kvs /\ ops = map (mk (TEdge x y)) kvs
+    | _ => False
+    end.
+  Definition pprint_ok (pv : nat -> option value) (st : lstmt) : Prop :=
+    match st with
+    | LSPrint args _ => Forall (fun a => match a with Some lv => exists v, pden pv lv v | None => True end) args
+    | _ => False
+    end.
+  Section PMono.
+    Variables pv pv' : nat -> option value.
+    Hypothesis Hp : forall i v, pv i = Some v -> pv' i = Some v.
+    Lemma pden_edge_mono st e : pden_edge pv st e -> pden_edge pv' st e.
+    Proof. intros (a & b & dbg & E & Ha & Hb). exists a, b, dbg. split; [exact E|]. split; eapply pden_mono; eauto. Qed.
+    Lemma pden_attrs_mono out kvs : pden_attrs pv out kvs -> pden_attrs pv' out kvs.
+    Proof. intros H. induction H as [|x y l l' [H1 H2] _ IH]; constructor; [|exact IH]. split; [exact H1|eapply pden_mono; eauto]. Qed.
+    Lemma pden_astmt_mono st ops : pden_astmt pv st ops -> pden_astmt pv' st ops.
+    Proof.
+      destruct st; cbn [pden_astmt]; try tauto.
+      - intros (x & kvs & H1 & H2 & H3). exists x, kvs. split; [eapply pden_mono; eauto|]. split; [apply pden_attrs_mono, H2|exact H3].
+      - intros (x & y & kvs & H1 & H1' & H2 & H3). exists x, y, kvs. split; [eapply pden_mono; eauto|]. split; [eapply pden_mono; eauto|].
+        split; [apply pden_attrs_mono, H2|exact H3].
+    Qed.
+    Lemma pprint_ok_mono st : pprint_ok pv st -> pprint_ok pv' st.
+    Proof.
+      destruct st; cbn [pprint_ok]; try tauto. intros H. eapply Forall_impl; [|exact H]. intros [lv|]; [|auto].
+      intros [v Hv]. exists v. eapply pden_mono; eauto.
+    Qed.
+  End PMono.
+
+  (* the statements of the fragment: edge statements carry no execution-time attributes (no debug attributes) *)
+  Notation sfrag := (lsall (fun ea : amap => ea = []) okfn top top).
+
+  Lemma gnode_A F lv ls p x ls' p' : eval_as_gnode t fl call F lv ls p = Ok (x, ls', p') -> frag lv -> sfrag0 (l_store ls) ->
+    only_store ls ls' /\ stle (l_store ls) (l_store ls') /\ pden (fvs (l_store ls')) lv (VGraph x).
+  Proof.
+    intros H Hf Hs. unfold eval_as_gnode in H. apply bind_ok in H as (v & ls1 & p1 & E & H). apply lift_ok in H as (Hv & -> & ->).
+    apply as_gnode_ok in Hv. subst v. destruct (evA_all F) as [He _]. apply (He _ _ _ _ _ _ E Hf Hs).
+  Qed.
+  Lemma poll_keep l (ls : lstate) p u ls' p' : lpoll l ls p = Ok (u, ls', p') -> ls' = ls.
+  Proof. unfold lpoll. intros H. apply poll_ok in H as (-> & _). reflexivity. Qed.
+
+  Lemma ledge_add_A x y ls p u ls' p' : ledge_add x y [] ls p = Ok (u, ls', p') ->
+    apply_edge (x, y) (l_graph ls) = Some (l_graph ls') /\ l_store ls' = l_store ls /\ l_prev ls' = l_prev ls /\ keep_rest ls ls'.
+  Proof.
+    unfold ledge_add, bind, get_state, apply_edge. cbn [fst snd]. destruct (graph_add_edge (l_graph ls) x y) as [[g' isnew]|] eqn:E; [|discriminate].
+    destruct isnew.
+    - rewrite (edge_reset_id _ _ _ _ E). unfold set_lgraph, Lazy.upd, modify. intros H; inversion H; subst. cbn. repeat split.
+    - unfold set_lgraph, Lazy.upd, modify. intros H; inversion H; subst. cbn. repeat split.
+  Qed.
+
+  Lemma estmt_A F a b dbg ls p u ls' p' : eval_lstmt t fl call F (LSEdge a b [] dbg) ls p = Ok (u, ls', p') -> frag a -> frag b -> sfrag0 (l_store ls) ->
+    exists x y, pden (fvs (l_store ls')) a (VGraph x) /\ pden (fvs (l_store ls')) b (VGraph y) /\ apply_edge (x, y) (l_graph ls) = Some (l_graph ls') /\
+                stle (l_store ls) (l_store ls') /\ keep_rest ls ls' /\ l_prev ls' = l_prev ls.
+  Proof.
+    intros H Ha Hb Hs. unfold eval_lstmt in H. apply bind_ok in H as (u0 & ls0 & p0 & Ep & H). apply poll_keep in Ep. subst ls0. apply ctx_wrap_ok in H.
+    apply bind_ok in H as (x & ls1 & p1 & E1 & H). apply ctx_wrap_ok in E1. apply bind_ok in H as (y & ls2 & p2 & E2 & H). apply ctx_wrap_ok in E2.
+    destruct (gnode_A _ _ _ _ _ _ _ E1 Ha Hs) as ((G1 & Pv1 & K1) & S1 & D1).
+    destruct (gnode_A _ _ _ _ _ _ _ E2 Hb (sfrag0_stle _ _ S1 Hs)) as ((G2 & Pv2 & K2) & S2 & D2).
+    destruct (ledge_add_A _ _ _ _ _ _ _ H) as (Hg & Hst & Hpv & K3). exists x, y. rewrite Hst.
+    split; [eapply pden_mono; [apply stle_fvs, S2|exact D1]|]. split; [exact D2|]. split; [rewrite <- G1, <- G2; exact Hg|].
+    split; [eapply stle_trans; eauto|]. split; [eapply keep_rest_trans; [exact K1|eapply keep_rest_trans; eauto]|congruence].
+  Qed.
+
+  Lemma edges_A F : forall sts ls p u ls' p', iterM (eval_lstmt t fl call F) sts ls p = Ok (u, ls', p') ->
+    Forall (fun st => is_estmt st /\ sfrag st) sts -> sfrag0 (l_store ls) ->
+    exists eops, Forall2 (pden_edge (fvs (l_store ls'))) sts eops /\ apply_edges eops (l_graph ls) = Some (l_graph ls') /\
+                 stle (l_store ls) (l_store ls') /\ keep_rest ls ls' /\ l_prev ls' = l_prev ls.
+  Proof.
+    induction sts as [|st sts IH]; intros ls p u ls' p' H Hf Hs; cbn [iterM] in H.
+    - apply ret_ok in H as (_ & -> & _). exists []. split; [constructor|]. split; [reflexivity|]. split; [apply stle_refl|]. split; [apply keep_rest_refl|reflexivity].
+    - inversion Hf as [|? ? [Hk Hst] Hrest]; subst. apply bind_ok in H as (u1 & ls1 & p1 & E1 & H).
+      destruct st as [n attrs dbg|a b ea dbg|a b attrs dbg|args dbg]; cbn [is_estmt] in Hk; try contradiction. cbn [lsall] in Hst. destruct Hst as (Ha & Hb & ->).
+      destruct (estmt_A _ _ _ _ _ _ _ _ _ E1 Ha Hb Hs) as (x & y & Dx & Dy & Hg & S1 & K1 & P1).
+      destruct (IH _ _ _ _ _ H Hrest (sfrag0_stle _ _ S1 Hs)) as (eops & HF & Hg2 & S2 & K2 & P2).
+      exists ((x, y) :: eops). split.
+      + constructor; [|exact HF]. exists a, b, dbg. split; [reflexivity|]. cbn [fst snd]. split; (eapply pden_mono; [apply stle_fvs, S2|]); assumption.
+      + cbn [ofold]. rewrite Hg. split; [exact Hg2|]. split; [eapply stle_trans; eauto|]. split; [eapply keep_rest_trans; eauto|congruence].
+  Qed.
+
+  (* attribute statements *)
+  Lemma prev_insert_A k dbg ls p o ls' p' : prev_insert k dbg ls p = Ok (o, ls', p') -> l_graph ls' = l_graph ls /\ l_store ls' = l_store ls /\ keep_rest ls ls'.
+  Proof. unfold prev_insert, bind, get_state, set_lprev, Lazy.upd, modify, ret. intros H; inversion H; subst. cbn. repeat split. Qed.
+  Lemma lattr_node_add_A x k v prev dbg ls p u ls' p' : lattr_node_add x k v prev dbg ls p = Ok (u, ls', p') ->
+    apply_attr (AN x k v) (l_graph ls) = Some (l_graph ls') /\ l_store ls' = l_store ls /\ keep_rest ls ls'.
+  Proof.
+    unfold lattr_node_add, bind, get_state, apply_attr. destruct (gnode_at (l_graph ls) x) as [nd|]; [|discriminate].
+    destruct (attrs_add (g_attrs nd) k v) as [m' [c|]]; [discriminate|]. unfold set_lgraph, Lazy.upd, modify. intros H; inversion H; subst. cbn. repeat split.
+  Qed.
+  Lemma ledge_exists_A x y ls p b ls' p' : ledge_exists x y ls p = Ok (b, ls', p') -> ls' = ls.
+  Proof. unfold ledge_exists, bind, get_state. destruct (gnode_at (l_graph ls) x); [|discriminate]. unfold ret. intros H; inversion H; reflexivity. Qed.
+  Lemma lattr_edge_add_A x y k v prev dbg ls p u ls' p' : lattr_edge_add x y k v prev dbg ls p = Ok (u, ls', p') ->
+    apply_attr (AE x y k v) (l_graph ls) = Some (l_graph ls') /\ l_store ls' = l_store ls /\ keep_rest ls ls'.
+  Proof.
+    unfold lattr_edge_add, bind, get_state, apply_attr. destruct (gnode_at (l_graph ls) x) as [nd|]; [|discriminate].
+    destruct (edges_get y (g_edges nd)) as [m0|]; [|discriminate].
+    destruct (attrs_add m0 k v) as [m' [c|]]; [discriminate|]. unfold set_lgraph, Lazy.upd, modify. intros H; inversion H; subst. cbn. repeat split.
+  Qed.
+
+  Lemma nattrs_A F x dbg : forall attrs ls p u ls' p',
+    iterM (fun a : ident * lvalue => v <- eval_lv' F (snd a) ;; prev <- prev_insert (KNode x (fst a)) dbg ;; lattr_node_add x (fst a) v prev dbg) attrs ls p = Ok (u, ls', p') ->
+    Forall (atall okfn top top) attrs -> sfrag0 (l_store ls) ->
+    exists kvs, pden_attrs (fvs (l_store ls')) attrs kvs /\ apply_attrs (map (mk (TNode x)) kvs) (l_graph ls) = Some (l_graph ls') /\
+                stle (l_store ls) (l_store ls') /\ keep_rest ls ls'.
+  Proof.
+    induction attrs as [|[k lv] attrs IH]; intros ls p u ls' p' H Hf Hs; cbn [iterM] in H.
+    - apply ret_ok in H as (_ & -> & _). exists []. split; [constructor|]. split; [reflexivity|]. split; [apply stle_refl|apply keep_rest_refl].
+    - inversion Hf as [|? ? Hlv Hrest]; subst. unfold atall in Hlv. cbn [fst snd] in *. apply bind_ok in H as (u1 & ls3 & p3 & E & H).
+      apply bind_ok in E as (v & ls1 & p1 & E1 & E). apply bind_ok in E as (prev & ls2 & p2 & E2 & E3).
+      destruct (evA_all F) as [He _]. destruct (He _ _ _ _ _ _ E1 Hlv Hs) as ((G1 & _ & K1) & S1 & D1).
+      destruct (prev_insert_A _ _ _ _ _ _ _ E2) as (G2 & St2 & K2). destruct (lattr_node_add_A _ _ _ _ _ _ _ _ _ _ E3) as (G3 & St3 & K3).
+      assert (S13 : stle (l_store ls) (l_store ls3)) by (rewrite St3, St2; exact S1).
+      destruct (IH _ _ _ _ _ H Hrest (sfrag0_stle _ _ S13 Hs)) as (kvs & HF & Hg & S4 & K4).
+      exists ((k, v) :: kvs). split.
+      + constructor; [|exact HF]. cbn [fst snd]. split; [reflexivity|]. eapply pden_mono; [apply stle_fvs, S4|]. rewrite St3, St2. exact D1.
+      + cbn [map ofold mk fst snd]. rewrite <- G1, <- G2, G3. split; [exact Hg|]. split; [eapply stle_trans; eauto|].
+        eapply keep_rest_trans; [exact K1|]. eapply keep_rest_trans; [exact K2|]. eapply keep_rest_trans; eauto.
+  Qed.
+  Lemma eattrs_A F x y dbg : forall attrs ls p u ls' p',
+    iterM (fun ak : ident * lvalue => v <- eval_lv' F (snd ak) ;; ex <- ledge_exists x y ;;
+             if ex then prev <- prev_insert (KEdge x y (fst ak)) dbg ;; lattr_edge_add x y (fst ak) v prev dbg else fail EUndefinedEdge) attrs ls p = Ok (u, ls', p') ->
+    Forall (atall okfn top top) attrs -> sfrag0 (l_store ls) ->
+    exists kvs, pden_attrs (fvs (l_store ls')) attrs kvs /\ apply_attrs (map (mk (TEdge x y)) kvs) (l_graph ls) = Some (l_graph ls') /\
+                stle (l_store ls) (l_store ls') /\ keep_rest ls ls'.
+  Proof.
+    induction attrs as [|[k lv] attrs IH]; intros ls p u ls' p' H Hf Hs; cbn [iterM] in H.
+    - apply ret_ok in H as (_ & -> & _). exists []. split; [constructor|]. split; [reflexivity|]. split; [apply stle_refl|apply keep_rest_refl].
+    - inversion Hf as [|? ? Hlv Hrest]; subst. unfold atall in Hlv. cbn [fst snd] in *. apply bind_ok in H as (u1 & ls3 & p3 & E & H).
+      apply bind_ok in E as (v & ls1 & p1 & E1 & E). apply bind_ok in E as (ex & ls1' & p1' & Eex & E). apply ledge_exists_A in Eex as Hex. subst ls1'.
+      destruct ex; [|discriminate]. apply bind_ok in E as (prev & ls2 & p2 & E2 & E3).
+      destruct (evA_all F) as [He _]. destruct (He _ _ _ _ _ _ E1 Hlv Hs) as ((G1 & _ & K1) & S1 & D1).
+      destruct (prev_insert_A _ _ _ _ _ _ _ E2) as (G2 & St2 & K2). destruct (lattr_edge_add_A _ _ _ _ _ _ _ _ _ _ _ E3) as (G3 & St3 & K3).
+      assert (S13 : stle (l_store ls) (l_store ls3)) by (rewrite St3, St2; exact S1).
+      destruct (IH _ _ _ _ _ H Hrest (sfrag0_stle _ _ S13 Hs)) as (kvs & HF & Hg & S4 & K4).
+      exists ((k, v) :: kvs). split.
+      + constructor; [|exact HF]. cbn [fst snd]. split; [reflexivity|]. eapply pden_mono; [apply stle_fvs, S4|]. rewrite St3, St2. exact D1.
+      + cbn [map ofold mk fst snd]. rewrite <- G1, <- G2, G3. split; [exact Hg|]. split; [eapply stle_trans; eauto|].
+        eapply keep_rest_trans; [exact K1|]. eapply keep_rest_trans; [exact K2|]. eapply keep_rest_trans; eauto.
+  Qed.
+
+  Lemma astmt_A F st ls p u ls' p' : eval_lstmt t fl call F st ls p = Ok (u, ls', p') -> is_astmt st -> sfrag st -> sfrag0 (l_store ls) ->
+    exists ops, pden_astmt (fvs (l_store ls')) st ops /\ apply_attrs ops (l_graph ls) = Some (l_graph ls') /\ stle (l_store ls) (l_store ls') /\ keep_rest ls ls'.
+  Proof.
+    intros H Hk Hf Hs. unfold eval_lstmt in H. apply bind_ok in H as (u0 & ls0 & p0 & Ep & H). apply poll_keep in Ep. subst ls0.
+    destruct st as [n attrs dbg|a b ea dbg|a b attrs dbg|args dbg]; cbn [is_astmt] in Hk; try contradiction; cbn [lsall] in Hf; apply ctx_wrap_ok in H.
+    - destruct Hf as [Hn Hat]. apply bind_ok in H as (x & ls1 & p1 & E1 & H). apply ctx_wrap_ok in E1.
+      destruct (gnode_A _ _ _ _ _ _ _ E1 Hn Hs) as ((G1 & _ & K1) & S1 & D1).
+      destruct (nattrs_A F x dbg _ _ _ _ _ _ H Hat (sfrag0_stle _ _ S1 Hs)) as (kvs & HF & Hg & S2 & K2).
+      exists (map (mk (TNode x)) kvs). split; [|split; [rewrite <- G1; exact Hg|split; [eapply stle_trans; eauto|eapply keep_rest_trans; eauto]]].
+      cbn [pden_astmt]. exists x, kvs. split; [eapply pden_mono; [apply stle_fvs, S2|exact D1]|]. split; [exact HF|reflexivity].
+    - destruct Hf as (Ha & Hb & Hat). apply bind_ok in H as (x & ls1 & p1 & E1 & H). apply ctx_wrap_ok in E1.
+      apply bind_ok in H as (y & ls2 & p2 & E2 & H). apply ctx_wrap_ok in E2.
+      destruct (gnode_A _ _ _ _ _ _ _ E1 Ha Hs) as ((G1 & _ & K1) & S1 & D1).
+      destruct (gnode_A _ _ _ _ _ _ _ E2 Hb (sfrag0_stle _ _ S1 Hs)) as ((G2 & _ & K2) & S2 & D2).
+      assert (S12 : stle (l_store ls) (l_store ls2)) by (eapply stle_trans; eauto).
+      destruct (eattrs_A F x y dbg _ _ _ _ _ _ H Hat (sfrag0_stle _ _ S12 Hs)) as (kvs & HF & Hg & S3 & K3).
+      exists (map (mk (TEdge x y)) kvs). split; [|split; [rewrite <- G1, <- G2; exact Hg|split; [eapply stle_trans; eauto|eapply keep_rest_trans; [exact K1|eapply keep_rest_trans; eauto]]]].
+      cbn [pden_astmt]. exists x, y, kvs. split; [eapply pden_mono; [apply stle_fvs; eapply stle_trans; [exact S2|exact S3]|exact D1]|].
+      split; [eapply pden_mono; [apply stle_fvs, S3|exact D2]|]. split; [exact HF|reflexivity].
+  Qed.
+  Lemma attrs_A F : forall sts ls p u ls' p', iterM (eval_lstmt t fl call F) sts ls p = Ok (u, ls', p') ->
+    Forall (fun st => is_astmt st /\ sfrag st) sts -> sfrag0 (l_store ls) ->
+    exists aopss, Forall2 (pden_astmt (fvs (l_store ls'))) sts aopss /\ apply_attrs (concat aopss) (l_graph ls) = Some (l_graph ls') /\
+                  stle (l_store ls) (l_store ls') /\ keep_rest ls ls'.
+  Proof.
+    induction sts as [|st sts IH]; intros ls p u ls' p' H Hf Hs; cbn [iterM] in H.
+    - apply ret_ok in H as (_ & -> & _). exists []. split; [constructor|]. split; [reflexivity|]. split; [apply stle_refl|apply keep_rest_refl].
+    - inversion Hf as [|? ? [Hk Hst] Hrest]; subst. apply bind_ok in H as (u1 & ls1 & p1 & E1 & H).
+      destruct (astmt_A _ _ _ _ _ _ _ E1 Hk Hst Hs) as (ops & D1 & Hg1 & S1 & K1).
+      destruct (IH _ _ _ _ _ H Hrest (sfrag0_stle _ _ S1 Hs)) as (aopss & HF & Hg2 & S2 & K2).
+      exists (ops :: aopss). split; [constructor; [eapply pden_astmt_mono; [apply stle_fvs, S2|exact D1]|exact HF]|].
+      cbn [concat]. split; [eapply ofold_app_ok; eauto|]. split; [eapply stle_trans; eauto|eapply keep_rest_trans; eauto].
+  Qed.
+
+  (* print statements *)
+  Lemma prints_A F : forall sts ls p u ls' p', iterM (eval_lstmt t fl call F) sts ls p = Ok (u, ls', p') ->
+    Forall (fun st => is_pstmt st /\ sfrag st) sts -> sfrag0 (l_store ls) ->
+    Forall (pprint_ok (fvs (l_store ls'))) sts /\ l_graph ls' = l_graph ls /\ stle (l_store ls) (l_store ls') /\ keep_rest ls ls'.
+  Proof.
+    induction sts as [|st sts IH]; intros ls p u ls' p' H Hf Hs; cbn [iterM] in H.
+    - apply ret_ok in H as (_ & -> & _). split; [constructor|]. split; [reflexivity|]. split; [apply stle_refl|apply keep_rest_refl].
+    - inversion Hf as [|? ? [Hk Hst] Hrest]; subst. apply bind_ok in H as (u1 & ls1 & p1 & E1 & H).
+      destruct st as [n attrs dbg|a b ea dbg|a b attrs dbg|args dbg]; cbn [is_pstmt] in Hk; try contradiction. cbn [lsall] in Hst.
+      unfold eval_lstmt in E1. apply bind_ok in E1 as (u0 & ls0 & p0 & Ep & E1). apply poll_keep in Ep. subst ls0. apply ctx_wrap_ok in E1.
+      assert (Hargs : forall args0 ls0 p0 u2 ls2 p2,
+                iterM (fun a : option lvalue => match a with Some lv => eval_lv' F lv ;;; ret tt | None => ret tt end) args0 ls0 p0 = Ok (u2, ls2, p2) ->
+                Forall (fun o => match o with Some lv => frag lv | None => True end) args0 -> sfrag0 (l_store ls0) ->
+                Forall (fun a => match a with Some lv => exists v, pden (fvs (l_store ls2)) lv v | None => True end) args0 /\
+                only_store ls0 ls2 /\ stle (l_store ls0) (l_store ls2)).
+      { destruct (evA_all F) as [He _]. clear -He. induction args0 as [|a args0 IHa]; intros ls0 p0 u2 ls2 p2 H Hf Hs; cbn [iterM] in H.
+        - apply ret_ok in H as (_ & -> & _). split; [constructor|]. split; [apply only_store_refl|apply stle_refl].
+        - inversion Hf as [|? ? Ha Hrest]; subst. apply bind_ok in H as (u1 & ls1 & p1 & E1 & H). destruct a as [lv|].
+          + apply bind_ok in E1 as (v & ls1' & p1' & E1 & Er). apply ret_ok in Er as (_ & -> & _).
+            destruct (He _ _ _ _ _ _ E1 Ha Hs) as (O1 & S1 & D1). destruct (IHa _ _ _ _ _ H Hrest (sfrag0_stle _ _ S1 Hs)) as (HF & O2 & S2).
+            split; [constructor; [exists v; eapply pden_mono; [apply stle_fvs, S2|exact D1]|exact HF]|]. split; [eapply only_store_trans; eauto|eapply stle_trans; eauto].
+          + apply ret_ok in E1 as (_ & -> & _). destruct (IHa _ _ _ _ _ H Hrest Hs) as (HF & O2 & S2). split; [constructor; [exact I|exact HF]|]. auto. }
+      destruct (Hargs _ _ _ _ _ _ E1 Hst Hs) as (HF1 & (G1 & _ & K1) & S1).
+      destruct (IH _ _ _ _ _ H Hrest (sfrag0_stle _ _ S1 Hs)) as (HF2 & G2 & S2 & K2).
+      split; [constructor; [|exact HF2]|split; [congruence|split; [eapply stle_trans; eauto|eapply keep_rest_trans; eauto]]].
+      cbn [pprint_ok]. eapply Forall_impl; [|exact HF1]. intros [lv|]; [|auto]. intros [v Hv]. exists v. eapply pden_mono; [apply stle_fvs, S2|exact Hv].
+  Qed.
+
+  (* forcing every thunk *)
+  Lemma force_list_A F : forall (l : list nat) ls p u ls' p', iterM (fun i => force_thunk' F i ;;; ret tt) (map N.of_nat l) ls p = Ok (u, ls', p') -> sfrag0 (l_store ls) ->
+    only_store ls ls' /\ stle (l_store ls) (l_store ls') /\ forall i, In i l -> fvs (l_store ls') i <> None.
+  Proof.
+    destruct (evA_all F) as [_ Ht]. induction l as [|i l IH]; intros ls p u ls' p' H Hs; cbn [map iterM] in H.
+    - apply ret_ok in H as (_ & -> & _). split; [apply only_store_refl|]. split; [apply stle_refl|]. intros i [].
+    - apply bind_ok in H as (u1 & ls1 & p1 & E1 & H). apply bind_ok in E1 as (v & ls1' & p1' & E1 & Er). apply ret_ok in Er as (_ & -> & _).
+      destruct (Ht _ _ _ _ _ _ E1 Hs) as (O1 & S1 & D1). rewrite Nnat.Nat2N.id in D1. destruct (IH _ _ _ _ _ H (sfrag0_stle _ _ S1 Hs)) as (O2 & S2 & D2).
+      split; [eapply only_store_trans; eauto|]. split; [eapply stle_trans; eauto|]. intros j [<-|Hj]; [|apply D2, Hj].
+      rewrite (stle_fvs _ _ S2 _ _ D1). discriminate.
+  Qed.
+
+  (* ================= the evaluation phase, read back ================= *)
+  (* the store is acyclic and in the fragment; the deferred statements are sorted by kind and in the fragment *)
+  Definition sacyc (st : list thunk) : Prop := forall i th, nth_error st i = Some th -> thall okfn top (fun l => l < N.of_nat i) th.
+  Definition evalable (s : lstate) : Prop :=
+    let L := fun l => l < N.of_nat (length (l_store s)) in
+    sacyc (l_store s) /\ l_scoped s = [] /\
+    Forall (fun st => is_estmt st /\ lsall (fun ea : amap => ea = []) okfn top L st) (l_edges s) /\
+    Forall (fun st => is_astmt st /\ lsall (fun ea : amap => ea = []) okfn top L st) (l_attrs s) /\
+    Forall (fun st => is_pstmt st /\ lsall (fun ea : amap => ea = []) okfn top L st) (l_prints s).
+
+  (* the denotational summary of a state (what the lemmas of StrictLazy.v / EvalPermLazy.v start from) *)
+  Definition denotes (s : lstate) (rho : list value) (eops : list (N * N)) (aopss : list (list aop)) : Prop :=
+    store_wf call rho (l_store s) /\ Forall2 (den_edge call rho) (l_edges s) eops /\ Forall2 (den_astmt call rho) (l_attrs s) aopss /\
+    Forall (print_ok call rho) (l_prints s).
+
+  Lemma lsall_weaken (L : N -> Prop) st : lsall (fun ea : amap => ea = []) okfn top L st -> sfrag st.
+  Proof. apply lsall_impl; auto. intros; exact I. Qed.
+  Lemma Forall_kind_weaken (K : lstmt -> Prop) (L : N -> Prop) l :
+    Forall (fun st => K st /\ lsall (fun ea : amap => ea = []) okfn top L st) l -> Forall (fun st => K st /\ sfrag st) l.
+  Proof. intros H. eapply Forall_impl; [|exact H]. intros st [H1 H2]. split; [exact H1|eapply lsall_weaken; eauto]. Qed.
+
+  Theorem eval_extract F s p u fin p' : evaluate_phase t fl call F s p = Ok (u, fin, p') -> evalable s ->
+    exists rho eops aopss g1, denotes s rho eops aopss /\ apply_edges eops (l_graph s) = Some g1 /\ apply_attrs (concat aopss) g1 = Some (l_graph fin).
+  Proof.
+    intros H (Hac & Hsc & He & Ha & Hp). unfold evaluate_phase in H. unfold bind at 1, get_state at 1 in H.
+    apply bind_ok in H as (u1 & s1 & p1 & E1 & H). apply bind_ok in H as (u2 & s2 & p2 & E2 & H). apply bind_ok in H as (u3 & s3 & p3 & E3 & H).
+    apply bind_ok in H as (u4 & s4 & p4 & E4 & H).
+    assert (Hs0 : sfrag0 (l_store s)).
+    { intros i th lv E Es. pose proof (Hac i th E) as Ht. unfold thall in Ht. rewrite Es in Ht. cbn [tsall] in Ht. eapply lvall_impl; [| |exact Ht]; intros; exact I. }
+    destruct (edges_A F _ _ _ _ _ _ E1 (Forall_kind_weaken _ _ _ He) Hs0) as (eops & HFe & Hg1 & S1 & K1 & _).
+    pose proof (sfrag0_stle _ _ S1 Hs0) as Hs1. destruct K1 as (_ & Sc1 & Ed1 & At1 & Pr1 & _).
+    rewrite <- At1 in E2. destruct (attrs_A F _ _ _ _ _ _ E2 ltac:(rewrite At1; exact (Forall_kind_weaken _ _ _ Ha)) Hs1) as (aopss & HFa & Hg2 & S2 & K2).
+    pose proof (sfrag0_stle _ _ S2 Hs1) as Hs2. destruct K2 as (_ & Sc2 & Ed2 & At2 & Pr2 & _).
+    rewrite <- Pr1, <- Pr2 in E3. destruct (prints_A F _ _ _ _ _ _ E3 ltac:(rewrite Pr2, Pr1; exact (Forall_kind_weaken _ _ _ Hp)) Hs2) as (HFp & G3 & S3 & K3).
+    pose proof (sfrag0_stle _ _ S3 Hs2) as Hs3. destruct K3 as (_ & Sc3 & _).
+    unfold store_evaluate_all in E4. unfold bind at 1, get_state at 1 in E4.
+    destruct (force_list_A F _ _ _ _ _ _ E4 Hs3) as ((G4 & _ & (_ & Sc4 & _)) & S4 & Hall).
+    unfold scoped_evaluate_all in H. unfold bind at 1, get_state at 1 in H. rewrite Sc4, Sc3, Sc2, Sc1, Hsc in H. cbn [sort_alist sort_by fold_right map iterM] in H.
+    apply ret_ok in H as (_ & -> & _).
+    assert (S04 : stle (l_store s) (l_store s4)) by (eapply stle_trans; [exact S1|eapply stle_trans; [exact S2|eapply stle_trans; eauto]]).
+    assert (Hlen : length (l_store s4) = length (l_store s)) by apply S04.
+    assert (Hlen3 : length (l_store s3) = length (l_store s)).
+    { destruct S1 as [L1 _], S2 as [L2 _], S3 as [L3 _]. congruence. }
+    set (val := fun th : thunk => match th_state th with TForced v => v | _ => VNull end).
+    set (rho := map val (l_store s4)).
+    assert (Hrho : forall i v, fvs (l_store s4) i = Some v -> nth_error rho i = Some v).
+    { intros i v E. unfold fvs in E. unfold rho. rewrite nth_error_map. destruct (nth_error (l_store s4) i) as [th|]; [|discriminate]. cbn [option_map]. unfold val.
+      destruct (th_state th); try discriminate. exact E. }
+    assert (Hforced : forall i, (i < length (l_store s))%nat -> fvs (l_store s4) i <> None).
+    { intros i Hi. apply Hall. apply in_seq. rewrite Hlen3. lia. }
+    assert (Hfull : firstn (length (l_store s)) rho = rho) by (unfold rho; rewrite <- Hlen, <- (map_length val); apply firstn_all).
+    assert (Hconv : forall lv v, pden (fvs (l_store s4)) lv v -> lvall okfn top (fun l => l < N.of_nat (length (l_store s))) lv -> den call rho lv v).
+    { intros lv v D Hl. rewrite <- Hfull. eapply pden_den; [|exact D|exact Hl]. intros i w _ E. apply Hrho, E. }
+    exists rho, eops, aopss, (l_graph s1). split; [|split; [exact Hg1|]].
+    2:{ rewrite G4, G3. exact Hg2. }
+    split; [|split; [|split]].
+    - (* the initial store is well formed for the final values *)
+      split; [unfold rho; rewrite map_length; exact Hlen|]. intros i th Hi Eth. destruct (proj2 S04 i th Eth) as (th4 & E4' & _ & T4).
+      assert (Hf : fvs (l_store s4) i <> None) by (apply Hforced, Hi). unfold fvs in Hf. rewrite E4' in Hf.
+      destruct (th_state th4) as [lv4| |v4] eqn:Est4; try (exfalso; apply Hf; reflexivity).
+      exists v4. split; [apply Hrho; unfold fvs; rewrite E4', Est4; reflexivity|].
+      pose proof (Hac i th Eth) as Hth. unfold thall in Hth. destruct (th_state th) as [lv| |v0]; cbn [tstep tsall] in *.
+      + destruct T4 as [T4|(w & T4 & Hw)]; [discriminate|]. inversion T4; subst w. eapply pden_den; [|exact Hw|exact Hth]. intros j w _ E. apply Hrho, E.
+      + discriminate.
+      + congruence.
+    - (* edge statements *)
+      assert (HFe' : Forall2 (pden_edge (fvs (l_store s4))) (l_edges s) eops).
+      { eapply Forall2_impl; [|exact HFe]. intros st e. apply pden_edge_mono. apply stle_fvs. eapply stle_trans; [exact S2|eapply stle_trans; eauto]. }
+      clear -HFe' He Hconv. induction HFe' as [|st e sts eops (a & b & dbg & -> & Da & Db) _ IH]; [constructor|]. inversion He as [|? ? [_ Hst] Hrest]; subst.
+      cbn [lsall] in Hst. destruct Hst as (Ha & Hb & _). constructor; [|apply IH, Hrest]. exists a, b, dbg. split; [reflexivity|]. split; apply Hconv; assumption.
+    - (* attribute statements *)
+      assert (HFa' : Forall2 (pden_astmt (fvs (l_store s4))) (l_attrs s) aopss).
+      { rewrite <- At1. eapply Forall2_impl; [|exact HFa]. intros st e. apply pden_astmt_mono. apply stle_fvs. eapply stle_trans; eauto. }
+      assert (Hattrs : forall attrs kvs, pden_attrs (fvs (l_store s4)) attrs kvs -> Forall (atall okfn top (fun l => l < N.of_nat (length (l_store s)))) attrs -> den_attrs call rho attrs kvs).
+      { clear -Hconv. intros attrs kvs D. induction D as [|x y l l' [H1 H2] _ IH]; intros Hf; [constructor|]. inversion Hf; subst. constructor; [split; [exact H1|apply Hconv; assumption]|apply IH; assumption]. }
+      clear -HFa' Ha Hconv Hattrs. induction HFa' as [|st ops sts aopss D _ IH]; [constructor|]. inversion Ha as [|? ? [_ Hst] Hrest]; subst. constructor; [|apply IH, Hrest].
+      destruct st as [n attrs dbg|a b ea dbg|a b attrs dbg|args dbg]; cbn [pden_astmt den_astmt lsall] in *; try contradiction.
+      + destruct D as (x & kvs & D1 & D2 & ->). destruct Hst as [Hn Hat]. exists x, kvs. split; [apply Hconv; assumption|]. split; [apply Hattrs; assumption|reflexivity].
+      + destruct D as (x & y & kvs & D1 & D1' & D2 & ->). destruct Hst as (Hx & Hy & Hat). exists x, y, kvs. split; [apply Hconv; assumption|]. split; [apply Hconv; assumption|].
+        split; [apply Hattrs; assumption|reflexivity].
+    - (* print statements *)
+      assert (HFp' : Forall (pprint_ok (fvs (l_store s4))) (l_prints s)).
+      { rewrite <- Pr1, <- Pr2. eapply Forall_impl; [|exact HFp]. intros st. apply pprint_ok_mono. apply stle_fvs. exact S4. }
+      clear -HFp' Hp Hconv. induction HFp' as [|st sts D _ IH]; [constructor|]. inversion Hp as [|? ? [_ Hst] Hrest]; subst. constructor; [|apply IH, Hrest].
+      destruct st as [n attrs dbg|a b ea dbg|a b attrs dbg|args dbg]; cbn [pprint_ok print_ok lsall] in *; try contradiction.
+      clear -D Hst Hconv. induction D as [|o args D0 _ IH]; [constructor|]. inversion Hst; subst. constructor; [|apply IH; assumption].
+      destruct o as [lv|]; [|exact I]. destruct D0 as [v Hv]. exists v. apply Hconv; assumption.
+  Qed.
 End Extract.
